@@ -137,3 +137,28 @@ theorem foldl_rec0 (n : Nat) (G : Nat → Rat → Rat) (step : List Rat → Int 
   refine ⟨h.1, fun j hj => h.2.1 j trivial hj, fun j hj => h.2.2 j (by omega)⟩
 
 end GeoVerif.Py
+
+namespace GeoVerif.Py
+
+/-- `foldl_rec` for a fold that already runs over `List.range n` (the loop variable is `a + k`) -/
+theorem foldl_recN (a n : Nat) (G : Nat → Rat → Rat) (stepN : List Rat → Nat → List Rat) (init : List Rat)
+    (hlen : a + n ≤ init.length) (hG0 : ∀ x y, G 0 x = G 0 y)
+    (hstep : ∀ (xs : List Rat) (k : Nat), xs.length = init.length → k < n →
+      stepN xs k = xs.set (a + k) (G (a + k) (xs.getD (a + k - 1) 0))) :
+    ((List.range n).foldl stepN init).length = init.length ∧
+    (∀ j, a ≤ j → j < a + n → ((List.range n).foldl stepN init).getD j 0 = G j (((List.range n).foldl stepN init).getD (j - 1) 0)) ∧
+    (∀ j, ¬ (a ≤ j ∧ j < a + n) → ((List.range n).foldl stepN init).getD j 0 = init.getD j 0) := by
+  have h := foldl_rec a n G (fun xs i => stepN xs (i - (a : Int)).toNat) init hlen hG0 (by
+    intro xs k hl hk
+    have : ((a : Int) + (k : Int) - (a : Int)).toNat = k := by omega
+    simp only [this]
+    exact hstep xs k hl hk)
+  rw [range_nat, List.foldl_map] at h
+  have e : (fun (s : List Rat) (k : Nat) => stepN s ((a : Int) + (k : Int) - (a : Int)).toNat) = stepN := by
+    funext s k
+    have : ((a : Int) + (k : Int) - (a : Int)).toNat = k := by omega
+    rw [this]
+  rw [e] at h
+  exact h
+
+end GeoVerif.Py
